@@ -815,11 +815,27 @@ def run_startwin(sc):
             return await orig(self)
 
         seen = []
+        shared_token = None     # one CounterToken object per directory and process
+        if sc.get("prefail"):
+            # the job fails once (its .failed marker stays until the relaunched process has taken the job lock)
+            (root / "fail.1").write_text("fail")
+            try:
+                with experiment(root / "xp", "firstrun", port=-1) as xp0:
+                    xp0.workspace.launcher.setenv("PYTHONPATH", os.environ.get("PYTHONPATH", ""))
+                    token0 = shared_token = T.CounterToken("tok", tokendir, total)
+                    task0 = HoldTask(dir=root, x=1)
+                    task0.add_dependencies(token0.dependency(total))
+                    task0.submit()
+                    xp0.wait()
+            except Exception:  # noqa
+                pass
+            (root / "fail.1").unlink()
+            res["failed_marker_before_relaunch"] = bool(list((root / "xp").rglob("*.failed")))
         CommandLineJob.aio_run = slow_run
         try:
             with experiment(root / "xp", "startwin", port=-1) as xp:
                 xp.workspace.launcher.setenv("PYTHONPATH", os.environ.get("PYTHONPATH", ""))
-                token = T.CounterToken("tok", tokendir, total)
+                token = shared_token or T.CounterToken("tok", tokendir, total)
                 task = HoldTask(dir=root, x=1)
                 task.add_dependencies(token.dependency(total))
                 task.submit()
@@ -1100,6 +1116,137 @@ def run_leftexp(sc):
         shutil.rmtree(root, ignore_errors=True)
 
 
+def run_sameid(sc):
+    """The same task (same identifier, hence the same token file name) is contended by two schedulers sharing the
+    token directory: the other one has just taken the token when this scheduler tries; the refused request must
+    leave the other holder's token file alone and the job must wait."""
+    root = Path(tempfile.mkdtemp(prefix="xpmverif-toki-", dir=sc.get("scratch")))
+    res = dict(error=None)
+    sleeper = None
+    try:
+        from experimaestro import experiment
+        from vpk_c08.tasks import HoldTask
+        tokendir = root / "shared-token"
+        foreign = FakeJob(7, root)
+        sleeper = subprocess.Popen(["sleep", "120"])
+        foreign.basepath.with_suffix(".pid").write_text(json.dumps({"type": "local", "pid": sleeper.pid}))
+        state = dict(acquires=0, name=None)
+        orig_acquire = T.CounterToken.acquire
+
+        def acquire(self, dependency):
+            state["acquires"] += 1
+            if state["acquires"] == 1:
+                # the same job, run from another workspace by another scheduler, has just taken the token
+                state["name"] = dependency.name
+                (tokendir / dependency.name).write_text("1\n%s\n" % foreign.basepath)
+            return orig_acquire(self, dependency)
+
+        T.CounterToken.acquire = acquire
+        try:
+            with experiment(root / "xp", "sameid", port=-1) as xp:
+                xp.workspace.launcher.setenv("PYTHONPATH", os.environ.get("PYTHONPATH", ""))
+                token = T.CounterToken("tok", tokendir, 1)
+                task = HoldTask(dir=root, x=1)
+                task.add_dependencies(token.dependency(1))
+                task.submit()
+                limit = time.time() + 10
+                while state["acquires"] == 0 and time.time() < limit:
+                    time.sleep(0.02)
+                time.sleep(sc.get("settle", 2.0))
+                f = tokendir / state["name"] if state["name"] else None
+                res["first_request_made"] = state["acquires"] >= 1
+                res["other_holder_file_kept"] = bool(f and f.exists() and str(foreign.basepath) in f.read_text())
+                res["job_started_while_other_holds"] = (root / "started.1").exists()
+                # the other holder ends and releases
+                sleeper.kill()
+                sleeper.wait()
+                foreign.basepath.with_suffix(".pid").unlink()
+                try:
+                    if f and f.exists() and str(foreign.basepath) in f.read_text():
+                        f.unlink()
+                except FileNotFoundError:
+                    pass
+                (root / "go").write_text("go")
+                limit = time.time() + 10
+                while not (root / "ended.1").exists() and time.time() < limit:
+                    time.sleep(0.05)
+                res["job_ran_after_release"] = (root / "ended.1").exists()
+                if not res["job_ran_after_release"]:
+                    res["hung"] = True
+                    answer_and_exit(res)
+        finally:
+            T.CounterToken.acquire = orig_acquire
+        return res
+    finally:
+        if sleeper is not None:
+            try:
+                sleeper.kill()
+            except Exception:
+                pass
+        shutil.rmtree(root, ignore_errors=True)
+
+
+def run_seqexp(sc):
+    """Successive experiments of ONE process reuse the token object of a name; the second one asks the name with a
+    larger count; jobs wait at the first release."""
+    root = Path(tempfile.mkdtemp(prefix="xpmverif-toks-", dir=sc.get("scratch")))
+    res = dict(error=None)
+    try:
+        from experimaestro import experiment
+        from vpk_c08.tasks import HoldTask
+        os.environ["XPM_WORKDIR"] = str(root / "xpmhome")
+        (root / "go").write_text("go")
+
+        def submit(token, x, count):
+            task = HoldTask(dir=root, x=x)
+            task.add_dependencies(token.dependency(count))
+            task.submit()
+            return task
+
+        with experiment(root / "ws1", "one", port=-1) as xp1:
+            xp1.workspace.launcher.setenv("PYTHONPATH", os.environ.get("PYTHONPATH", ""))
+            tok1 = xp1.token("shared", sc.get("first", 1))
+            submit(tok1, 1, 1)
+            xp1.wait()
+        res["first_experiment_job_ran"] = (root / "ended.1").exists()
+        (root / "go").unlink()
+        try:
+          with experiment(root / "ws2", "two", port=-1) as xp2:
+              xp2.workspace.launcher.setenv("PYTHONPATH", os.environ.get("PYTHONPATH", ""))
+              tok2 = xp2.token("shared", sc.get("second", 2))
+              res["same_object"] = tok2 is tok1
+              total = int((tok2.path / "token.info").read_text())
+              res["token_info_total"] = total
+              res["available_when_idle"] = int(tok2.available)
+              # a job that needs the whole capacity as written in token.info
+              full = submit(tok2, 20, total)
+              limit = time.time() + sc.get("wait", 8)
+              while not (root / "started.20").exists() and time.time() < limit:
+                  time.sleep(0.05)
+              res["full_capacity_job_started"] = (root / "started.20").exists()
+              if res["full_capacity_job_started"]:
+                  a, b = submit(tok2, 21, 1), submit(tok2, 22, 1)
+                  time.sleep(0.6)
+                  res["waiters_started_early"] = (root / "started.21").exists() or (root / "started.22").exists()
+                  (root / "go").write_text("go")
+                  limit = time.time() + sc.get("wait2", 15)
+                  while not ((root / "ended.21").exists() and (root / "ended.22").exists()) and time.time() < limit:
+                      time.sleep(0.05)
+                  res["waiters_ran"] = (root / "ended.21").exists() and (root / "ended.22").exists()
+                  res["states"] = [str(t.__xpm__.job.state) for t in (full, a, b)]
+                  res["available_at_end"] = int(tok2.available)
+              if not res.get("waiters_ran"):
+                  res["hung"] = True
+                  (root / "go").write_text("go")
+                  answer_and_exit(res)
+        except Exception as e:  # noqa
+            # e.g. the experiment reports a failed job on exit
+            res["second_experiment_exception"] = "%s: %s" % (type(e).__name__, str(e)[:200])
+        return res
+    finally:
+        shutil.rmtree(root, ignore_errors=True)
+
+
 def dep2_target(dep, root):
     dep.target = FakeJob(99, root)
     dep.loop = FakeLoop()
@@ -1211,6 +1358,36 @@ def run_probe(sc):
         except Exception as e:  # noqa
             out["token_info_truncated"] = dict(error=type(e).__name__ + ": " + str(e)[:200])
 
+        # a job path that contains a newline: what another process makes of the token file
+        try:
+            p0, p1 = EProc(), EProc()
+            tok = token("e-nl", 2, p0)
+            job = FakeJob(3, root)
+            job.path = root / "work\nspace" / job.identifier
+            job.path.mkdir(parents=True)
+            job.basepath = job.path / job.identifier
+            lk = dep(tok, 1, job).lock().acquire()
+            before = files("e-nl")
+            tok1 = token("e-nl", 2, p1)
+            out["newline_in_job_path"] = dict(files=before, files_after_other_process_recount=files("e-nl"),
+                                              available_in_other=int(tok1.available), total=2)
+            lk.release()
+        except Exception as e:  # noqa
+            out["newline_in_job_path"] = dict(error=type(e).__name__ + ": " + str(e)[:200])
+
+        # a token directory whose own name ends in .token: inotify reports the directory as modified
+        try:
+            from watchdog.events import DirModifiedEvent
+            p0 = EProc()
+            tok = token("gpu.token", 2, p0)
+            try:
+                p0.handler.dispatch(DirModifiedEvent(str(root / "gpu.token")))
+                out["directory_named_token"] = dict(handler_raised=None)
+            except Exception as e:  # noqa
+                out["directory_named_token"] = dict(handler_raised=type(e).__name__)
+        except Exception as e:  # noqa
+            out["directory_named_token"] = dict(error=type(e).__name__ + ": " + str(e)[:200])
+
         # Process.handler(): a second watcher thread asks for a handler while the first one is loading them
         try:
             import experimaestro.connectors as CN
@@ -1262,6 +1439,10 @@ def run_one(sc):
         return run_abortwake(sc)
     if kind == "twoexp":
         return run_twoexp(sc)
+    if kind == "sameid":
+        return run_sameid(sc)
+    if kind == "seqexp":
+        return run_seqexp(sc)
     if kind == "leftexp":
         return run_leftexp(sc)
     raise ValueError(kind)
